@@ -163,6 +163,7 @@ def rec_converter():
     if _REC is None:
         from lsprotocol import converters
 
+        foreign_history()
         _REC = converters.get_converter(RecConverter())
         _REC.cut = True
         # cattrs' own generic functions (_structure_optional, list/dict/tuple structuring, default union
@@ -219,9 +220,35 @@ def _wrap_dispatch(holder, NoTracing):
     holder.dispatch = dispatch
 
 
+_FOREIGN = []
+
+
+def foreign_history():
+    """Before the first converter that a check analyses is created, a caller-supplied converter with a different
+    configuration (extra keys forbidden, detailed validation off) gets the package's hooks and generates the functions
+    of every class.  A converter is documented to be independent of the ones created before it, so this changes nothing
+    where the properties hold; where state leaks between converters (a module-level cache of generated functions, a
+    table filled on first use) the analysed converter now shows it."""
+    if _FOREIGN:
+        return
+    _FOREIGN.append(None)
+    try:
+        from lsprotocol import converters, types
+
+        c = converters.get_converter(cattrs.Converter(forbid_extra_keys=True, detailed_validation=False))
+        for cls in list(types.ALL_TYPES_MAP.values()):
+            if isinstance(cls, type) and attrs.has(cls):
+                c.get_structure_hook(cls)
+                c.get_unstructure_hook(cls)
+        _FOREIGN[0] = c
+    except Exception as e:  # a package that cannot do this fails the checks that create converters anyway
+        sys.stderr.write("foreign converter history not established: %r\n" % (e,))
+
+
 def real_converter():
     global _REAL
     if _REAL is None:
+        foreign_history()
         from lsprotocol import converters
 
         _REAL = converters.get_converter()
